@@ -56,6 +56,8 @@ theorem addCluster_clusters {s s' : Store} {name : String} {nodeNum : Nat} {cfg 
   unfold addCluster at h
   split at h
   · cases h
+  split at h
+  · cases h
   · split at h
     · cases h
     · split at h
@@ -77,7 +79,7 @@ theorem addCluster_clusters {s s' : Store} {name : String} {nodeNum : Nat} {cfg 
                 split at hdo
                 · rename_i s2 htag
                   cases hdo
-                  have hlen := generateFreeChunks_length harr
+                  have hlen := allocChunks_length harr
                   have hmod' : nodeNum % 4 = 0 := by simpa using hmod
                   have hpn' : nodeNum / 2 ≠ 0 := by simpa using hpn
                   have hcl := tagProxies_clusters htag
@@ -93,6 +95,8 @@ theorem addCluster_fst (s : Store) (name : String) (nodeNum : Nat) (cfg : Config
     (addCluster s name nodeNum cfg choice).1 = s ∨
     ∃ s', addCluster s name nodeNum cfg choice = (s', R.ok ()) := by
   unfold addCluster
+  split
+  · exact Or.inl rfl
   split
   · exact Or.inl rfl
   · split
